@@ -8,6 +8,7 @@
   User callbacks (`Filter`, `Map`, key functions) are arbitrary Lean functions.
 -/
 import RapidModel.Prim
+import RapidModel.Float
 
 namespace Rapid
 
@@ -82,6 +83,7 @@ inductive Gen where
   | asAny (g : Gen)                         -- g.AsAny()
   | runeFrom (runes : List Int)             -- RuneFrom(runes) without tables
   | stringOf (elem : Gen) (minRunes maxRunes maxLen : Int)
+  | float (f : FFmt) (min max : UInt64)     -- Float32Range / Float64Range on bit patterns; the value is the bit pattern
 deriving Inhabited
 
 structure Env where
@@ -130,6 +132,7 @@ def Gen.label : Gen → String
   | .stringOf e a b c =>
       if a < 0 ∧ b < 0 ∧ c < 0 then s!"StringOf({e.label})"
       else s!"StringOfN({e.label}, minRunes={a}, maxRunes={b}, maxLen={c})"
+  | .float f a b => s!"Float{1 + f.E + f.S}Range({a.toNat}, {b.toNat})"
 
 /-- the label `Generator.value` gives its group: `g.str`, the cached `String()`, empty until
     `String()` has been called on this generator.  Collections call `String()` on their element
@@ -199,6 +202,7 @@ def Gen.body (e : Env) : Bool → Gen → Prog
               | some n => if acc.byteLen + n > maxB then rRej else rAcc (acc.snoc v)
               | none => rRej
             | _ => rRej)) .ret e.fuel {} .nil
+  | _, .float f min max => floatValue e.ft f min max e.fuel fun b => .ret (uv b)
 
 def Gen.value (e : Env) (g : Gen) : Prog := wrapValue (g.lbl e.strAll) (g.body e e.strAll)
 
